@@ -156,6 +156,10 @@ def oriented_bounds(obj, angle_digits=1, ordered=True, normal=None, coplanar_tol
         points_mean = np.mean(points, axis=0)
         points_demeaned = points - points_mean
         _, _, vh = np.linalg.svd(points_demeaned, full_matrices=False)
+        # the right singular vectors may form a left handed frame: the
+        # returned transform has to be a rotation, not a reflection
+        if np.linalg.det(vh) < 0.0:
+            vh[2] *= -1.0
         points_2d = np.matmul(points_demeaned, vh.T)
         if np.any(np.abs(points_2d[:, 2]) > coplanar_tol):
             raise ValueError("Points must be coplanar")
